@@ -470,4 +470,5 @@ func c19(p *model.Prog, r *report.Result) {
 	c19r8(p, r)
 	c19r9(p, r)
 	c19r10(p, r)
+	w5AscCopy(p, r, "C19.R11")
 }
